@@ -1,6 +1,6 @@
 (* C13 model driver: one case per line, one answer per line.  All numbers in hex (negative: leading '-').
    M C <order> <lambda> <ids>:<p>:<b> ... C <order> <lambda> ...     component tables (ids = universal word ids, ',' separated)
-        -> <ids>:<P>:<B> ... |R <buggy 0/1> <fixed 0/1>      P = sum_i lambda_i * full back-off score, B = sum_i lambda_i * back-off
+        -> <ids>:<P>:<B> ... |R <buggy 0/1> <fixed 0/1> |F <max successors of one context, per order> |U <union vocabulary> <largest component vocabulary>      P = sum_i lambda_i * full back-off score, B = sum_i lambda_i * back-off
    V <h,h,..>;<h,..>;...    per-model vocabulary hashes (words 1..), "-" = none
         -> G:<h,..>|M:<gi,..>;<gi,..>   or FUEL
    B <bounds hex bytes> <values hex bytes>     bounded sequence encoding ("-" = empty)
@@ -37,6 +37,8 @@ let handle (line : string) : string =
       let rows = merged_Z cs in
       String.concat " " (List.map (fun (g, (p, b)) -> str_ids g ^ ":" ^ hex_of_z p ^ ":" ^ hex_of_z b) rows)
       ^ " |R " ^ (if reunify_ok_Z false cs then "1" else "0") ^ " " ^ (if reunify_ok_Z true cs then "1" else "0")
+      ^ " |F " ^ String.concat "," (List.map (fun m -> string_of_int (int_of_nat m)) (max_followers_Z cs))
+      ^ (let (u, c) = vocab_sizes_Z cs in Printf.sprintf " |U %d %d" (int_of_nat u) (int_of_nat c))
   | "B" :: bh :: vh :: [] ->
       let bytes_of h = if h = "-" then [] else List.init (String.length h / 2) (fun i -> n_of_hex (String.sub h (2 * i) 2)) in
       let hex_of l = if l = [] then "-" else String.concat "" (List.map (fun b -> let h = hex_of_n b in if String.length h = 1 then "0" ^ h else h) l) in
